@@ -55,7 +55,8 @@ PROPS = {
                                             "unscheduled_operations", "scheduled_operations", "uncompleted_operations")]
         + ["Dispatcher.next_operation", "Dispatcher.earliest_start_time", "Dispatcher.start_time",
            "Dispatcher.min_start_time", "Dispatcher.is_operation_ready", "Dispatcher._update_tracking_attributes",
-           "Dispatcher.reset", "Dispatcher.__init__", "Dispatcher.dispatch"],
+           "Dispatcher.reset", "Dispatcher.__init__", "Dispatcher.dispatch",
+           "UnscheduledOperationsObserver.reset", "UnscheduledOperationsObserver.update"],
         lemmas=["min-start-unique", "complete-iff-every-job-finished"],
         tierb=True,
         trusted=[T_OBSERVERS,
@@ -72,8 +73,9 @@ PROPS = {
                      "from a cached query (uncompleted_operations included); next_operation, earliest_start_time, start_time, "
                      "is_operation_ready equal their definitions",
                      "bounded only: the values of ongoing_operations, completed_operations, uncompleted_operations, "
-                     "available_machines, available_jobs, is_scheduled/is_ongoing, current_time under a filter, and the "
-                     "UnscheduledOperationsObserver mirror"],
+                     "available_machines, available_jobs, is_scheduled/is_ongoing, current_time under a filter; the "
+                     "UnscheduledOperationsObserver mirror is proved per call (reset establishes it, update re-establishes it "
+                     "after each dispatch); its construction on a dispatcher with history (itertools.chain) is bounded"],
     ),
     "C06": dict(
         level="proof",
@@ -254,7 +256,8 @@ PROPS = {
         # the part within reach of contracts is proved and reported, but the property is about numpy feature
         # observers, the graph updater and the environments as much as about these objects: claimed as bounded
         functions=["Dispatcher.reset", "Dispatcher.__init__", "Schedule.reset", "HistoryObserver.reset",
-                   "RewardObserver.reset", "MakespanReward.reset", "Dispatcher.dispatch"],
+                   "RewardObserver.reset", "MakespanReward.reset", "Dispatcher.dispatch",
+                   "UnscheduledOperationsObserver.reset", "UnscheduledOperationsObserver.update"],
         lemmas=["reset-state-equals-fresh-state", "dispatch-post-deterministic"],
         tierb=True,
         trusted=[T_OBSERVERS],
@@ -262,8 +265,10 @@ PROPS = {
                      "proved (not enough to claim the property): Dispatcher.reset and Dispatcher.__init__ establish the same "
                      "abstract state (lemma reset-state-equals-fresh-state) from which dispatch is deterministic; reset clears "
                      "the cache BEFORE notifying subscribers (cache invariant in the loop invariant of reset); "
-                     "HistoryObserver / RewardObserver / MakespanReward resets re-establish their constructor state",
-                     "bounded only: the seven numpy feature observers and the composite, UnscheduledOperationsObserver, "
+                     "HistoryObserver / RewardObserver / MakespanReward resets re-establish their constructor state; "
+                     "UnscheduledOperationsObserver.reset lists every operation of every job (the state its constructor "
+                     "builds) and update keeps the per-job deques a mirror of the dispatcher's next-operation indices",
+                     "bounded only: the seven numpy feature observers and the composite, "
                      "ResidualGraphUpdater, both environments, creation orders"],
     ),
     "C14": dict(
